@@ -1,3 +1,4 @@
+import EV.Props.C06task
 import EV.Proofs.Shutdown
 
 /-!
